@@ -12,7 +12,7 @@ open Evermint Evermint.GenCode Evermint.Block
 
 /-- the go-ethereum transaction accessors of a model transaction -/
 def txOf (t : EthTx) : types_Transaction :=
-  { Gas := t.gasLimit, GasFeeCap := t.feeCap, GasPrice := t.gasPrice, GasTipCap := t.tip, Type' := t.ty }
+  { (default : types_Transaction) with Gas := t.gasLimit, GasFeeCap := t.feeCap, GasPrice := t.gasPrice, GasTipCap := t.tip, Type' := t.ty }
 
 /-- `EthTxEffectiveGasPrice` is the model's `effPrice` (dynamic-fee: min(tip + base, cap); otherwise the gas price) -/
 theorem tie_effective_gas_price (t : EthTx) (base : Nat) :
@@ -48,11 +48,9 @@ theorem eff_le_declared (t : EthTx) (base : Nat) : effPrice t base ≤ max (decl
 
 /-- the context and parameters, as `getMinGasPricesAllowed` reads them -/
 def ctxOf (isCheck isRecheck : Bool) (nodeMin : String → Int) : types_Context :=
-  { BlockGasMeter_GasConsumedToLimit := 0, BlockGasMeter_Limit := 0, BlockGasMeter_isNil := true, BlockHeight := 0,
-    ConsensusParams_Block_MaxGas := 0, ConsensusParams_Block_isNil := true,
-    IsCheckTx := isCheck, IsReCheckTx := isRecheck, MinGasPrices_AmountOf := nodeMin }
+  { (default : types_Context) with IsCheckTx := isCheck, IsReCheckTx := isRecheck, MinGasPrices_AmountOf := nodeMin }
 
-def fpOf (s : BState) : types_Params := { BaseFee := s.baseFee, MinGasPrice := s.minRaw }
+def fpOf (s : BState) : types_Params := { (default : types_Params) with BaseFee := s.baseFee, MinGasPrice := s.minRaw }
 
 open Evermint.Go (decTruncate_nat)
 
